@@ -35,7 +35,7 @@ CLAIMS = {
                 "NoOverflow; Fate is within [-4,4]; monotone expressions inherit the bracket by induction; CoC bonus and penalty "
                 "dice give 1 / 100 in min / max mode without a draw and every roll lies between (coc_bracket, after a repair). Tie: roll streams in the three modes; oracle: "
                 "bracket, attainment and untouched generator on the implementation, also through the VM syntax.",
-        "note": TB + "Sides above 2^63-2 (unsupported size) are a recorded finding.",
+        "note": TB + "The largest die (2^63-1 sides, formerly rolling 0) was repaired; roll_largest.",
         "technique": "Lean 4 theorems (bracketing by induction) + three-mode differential streams",
     },
     "C12": {
